@@ -104,8 +104,14 @@ Section Writer.
            (c_restart_interval c) (hash_size c).
 
   (* NewWriter *)
+  (* a block size that cannot hold the file header and a block header (fix: "NewWriter
+     refuses a block size that cannot hold the file header"; 0 = the default size) *)
+  Definition block_too_small (cfg : config) : bool :=
+    negb (N.of_nat (header_size (cfg_defaults cfg)) + 4 <=? c_block_size (cfg_defaults cfg)).
+
   Definition w_new (cfg : config) : res wstate :=
     if 16777216 <=? c_block_size cfg then Err
+    else if block_too_small cfg then Err
     else
       let c := cfg_defaults cfg in
       let st := {| w_cfg := c; w_out := []; w_pad := 0; w_next := 0; w_last_key := []; w_bw := None;
